@@ -231,9 +231,10 @@ Definition maxcount (l : list str) : nat := fold_right (fun s m => Nat.max (coun
 
 Definition nan_str : str := [110; 97; 110]%N.   (* "nan" *)
 
-(* the rule as the property states it *)
+(* the rule as the property states it, on the four statistics of the rendered column *)
+Definition keep_spec_of (d m c n : nat) : bool := (1 <? d) && (5 * m <? 4 * n) && (4 * c <? 3 * n).
 Definition keep_spec (l : list str) : bool :=
-  (1 <? distinct l) && (5 * maxcount l <? 4 * length l) && (4 * count nan_str l <? 3 * length l).
+  keep_spec_of (distinct l) (maxcount l) (count nan_str l) (length l).
 
 Definition cmpQ (c : cmp) (a b : Q) : bool :=
   match c, (a ?= b)%Q with
@@ -242,12 +243,15 @@ Definition cmpQ (c : cmp) (a b : Q) : bool :=
   end.
 
 (* the rule as the code writes it, parametrised by what the translator reads from the source *)
+Definition keep_gen_of (dop : cmp) (drhs : Q) (mop : cmp) (mthr : Q) (nop : cmp) (nthr : Q) (d m c n : nat) : bool :=
+  let p := Pos.of_nat n in
+  cmpQ dop (inject_Z (Z.of_nat d)) drhs
+  && cmpQ mop (Z.of_nat m # p)%Q mthr
+  && cmpQ nop (Z.of_nat c # p)%Q nthr.
+
 Definition keep_gen (nanlit : str) (dop : cmp) (drhs : Q) (mop : cmp) (mthr : Q) (nop : cmp) (nthr : Q)
     (l : list str) : bool :=
-  let n := Pos.of_nat (length l) in
-  cmpQ dop (inject_Z (Z.of_nat (distinct l))) drhs
-  && cmpQ mop (Z.of_nat (maxcount l) # n)%Q mthr
-  && cmpQ nop (Z.of_nat (count nanlit l) # n)%Q nthr.
+  keep_gen_of dop drhs mop mthr nop nthr (distinct l) (maxcount l) (count nanlit l) (length l).
 
 (* names of the columns appended for one input column: [sel] the selected transformers,
    [rendered] the rendered transformed column of each, in the same order *)
